@@ -9,7 +9,7 @@
 From Coq Require Import String.
 From Coq Require Import NArith ZArith List Bool.
 From Cose Require Import Lib.Base Lib.Cbor Lib.CborProofs Model.GoVal Model.CborGo Model.Wire Model.MsgLogic Model.Msg Model.MsgProofs Model.MsgRoundTrip Model.ValueRoundTrip Model.MsgRoundTripFull
-     Lib.Hex Lib.HexProofs Model.Text Model.TextProofs Model.MsgRoundTripRecip Model.KdfRoundTrip Model.CwtCodec Model.CwtCodecProofs Lib.GenTypes Gen.StructsGen Model.KeySet Model.KeySetProofs Lib.GoSem Gen.FuncsGen Model.FuncsUntag.
+     Lib.Hex Lib.HexProofs Model.Text Model.TextProofs Model.MsgRoundTripRecip Model.KdfRoundTrip Model.CwtCodec Model.CwtCodecProofs Lib.GenTypes Gen.StructsGen Model.KeySet Model.KeySetProofs Lib.GoSem Gen.FuncsGen Model.FuncsUntag Model.MsgObj Model.MsgObjProofs.
 Import ListNotations.
 
 (* ---- the authenticated byte strings are re-emitted as received *)
@@ -208,3 +208,8 @@ Print Assumptions C09_remove_tag_source.
 Theorem C09_remove_tag_source_is_model : forall data, cose_RemoveCBORTag data = Ok (remove_cbor_tag data).
 Proof. exact gen_remove_cbor_tag. Qed.
 Print Assumptions C09_remove_tag_source_is_model.
+
+(* ---- over histories of one object: Verify / Decrypt (accepted or refused) never change what MarshalCBOR emits *)
+Theorem C09_consume_keeps_the_encoding : forall k o p ext, marshal_out k (fst (consume_step k o p ext)) = marshal_out k o.
+Proof. exact consume_keeps_marshal. Qed.
+Print Assumptions C09_consume_keeps_the_encoding.
